@@ -11,7 +11,8 @@
 //
 //	channel replay <histories.json> <out.ndjson>   behaviours chosen by TLC (actions of spec/NasSecureChannel.tla)
 //	channel record <out.ndjson>                    seeded behaviours: every algorithm pair, direction, bearer;
-//	                                               SQN wrap, overflow carry 0x00FFFF->0x010000, count wrap 0xFFFFFF->0
+//	                                               SQN wrap, overflow carry 0x00FFFF->0x010000, count wrap 0xFFFFFF->0,
+//	                                               every single bit of a wire flipped in turn
 //
 // The driver takes no decision about correctness: it performs each action with the real library and logs the
 // wire octets, accept/reject, the delivered plaintext and both counters.  Every comparison is TLC's
@@ -445,6 +446,27 @@ func record(out string) {
 					}
 				}
 			}
+		}
+	}
+	// every single bit of a wire flipped in turn (10-octet wire of the 3-octet message): one behaviour per algorithm pair
+	for nia := 0; nia < 4; nia++ {
+		for nea := 0; nea < 4; nea++ {
+			h := Hist{Nia: nia, Nea: nea, Bearer: bearers[(nia+nea)%3], Dir: (nia + nea/2) % 2, Kenc: keyOf(rng), Kint: keyOf(rng)}
+			h.Start = starts[(k+nia)%len(starts)]
+			n := 0
+			for _, fb := range []struct {
+				f string
+				n int
+			}{{"hdr", 16}, {"mac", 32}, {"sqn", 8}, {"ct", 24}} {
+				for b := 0; b < fb.n; b++ {
+					h.Acts = append(h.Acts, Act{Act: "Send", M: 0}, Act{Act: "Tamper", I: 1, F: fb.f, B: b}, Act{Act: "Deliver"})
+					if n++; n%8 == 0 { // and an untouched one in between
+						h.Acts = append(h.Acts, Act{Act: "Send", M: 0}, Act{Act: "Deliver"})
+					}
+				}
+			}
+			s.run(&h)
+			k++
 		}
 	}
 	s.w.Close()
